@@ -81,6 +81,77 @@ def run_bell(ctx, states, rng, nmodel):
     ctx.extra['states_with_model_checks'] = done_models
 
 
+def run_lu_orbit(ctx, states, rng, count):
+    """invariance under ARBITRARY local unitaries: the closed forms of U_A (x) U_B rho (U_A (x) U_B)^dagger equal the exact values of rho
+    (provenance: local-unitary orbit of an exactly known state); includes the maximally entangled orbit where C = 1 exactly"""
+    import numqi
+    E = numqi.entangle
+    bell = [s for s in states if s['cfg']['kind'] == 'bell']
+    maxent = [s for s in bell if rf(s['obs']['c']) == 1.0]
+    for t in range(count):
+        st = rng.choice(maxent) if t % 2 == 0 else rng.choice(bell)
+        rho = np.array([[complex(e[0], e[1]) for e in row] for row in st['obs']['rho']]) / st['obs']['den']
+        sa, sb = rng.randrange(10**6), rng.randrange(10**6)
+        U = np.kron(numqi.random.rand_haar_unitary(2, seed=sa), numqi.random.rand_haar_unitary(2, seed=sb))
+        r2 = U @ rho @ U.conj().T
+        r2 = (r2 + r2.conj().T) / 2
+        C = rf(st['obs']['c'])
+        data = dict(weights=st['cfg']['n'], unitary_seeds=[sa, sb], concurrence=C)
+        try:
+            vals = dict(concurrence=float(E.get_concurrence_2qubit(r2)), eof=float(E.get_eof_2qubit(r2)), gme=float(E.get_gme_2qubit(r2)), negativity=float(E.get_negativity(r2, (2, 2))))
+            ctx.evaluations += 1
+            if not all(np.isfinite(v) for v in vals.values()):
+                ctx.violation('C13:two-qubit-measures:non-finite-lu-orbit', 'non-finite value on a local-unitary image of a Bell-diagonal state (C=%g)' % C, dict(data, **{k: repr(v) for k, v in vals.items()}))
+            elif abs(vals['concurrence'] - C) > 1e-6 or abs(vals['eof'] - eof_of_c(C)) > 1e-5 or abs(vals['negativity'] - rf(st['obs']['neg'])) > 1e-7 or abs(math.sqrt(max(0.0, 1 - (1 - 2 * vals['gme']) ** 2)) - C) > 1e-5:
+                ctx.violation('C13:two-qubit-measures:lu-invariance', 'closed forms are not invariant under a local unitary', dict(data, **vals))
+        except Exception as ex:
+            ctx.violation('C13:exception:lu-orbit', type(ex).__name__ + ': ' + str(ex)[:160], data)
+    ctx.case(('lu-orbit', count))
+
+
+def run_model_reuse(ctx, states, rng, nseq):
+    """one model instance re-used over a sequence of states: set_density_matrix(rho_1); forward; set_density_matrix(rho_2); forward ...
+    every forward value must bound the closed form of the state that was set LAST (history-dependent behaviour of the model objects)"""
+    import numqi, torch
+    E = numqi.entangle
+    bell = [s for s in states if s['cfg']['kind'] == 'bell']
+    for q in range(nseq):
+        rank = rng.choice([1, 2, 3, 4])
+        pool = [s for s in bell if sum(1 for x in s['cfg']['n'] if x > 0) == rank]
+        # a weakly entangled state first, a strongly entangled one second: a model that keeps evaluating the first state
+        # then reports a loss below the closed form of the second
+        byc = sorted(pool, key=lambda t: rf(t['obs']['c']))
+        seq = [rng.choice(byc[: max(1, len(byc) // 4)]), rng.choice(byc[-max(1, len(byc) // 4):]), rng.choice(pool)]
+        ens = max(2, rank) + rng.randint(0, 2)
+        models = [E.EntanglementFormationModel(2, 2, ens, rank=rank), E.ConcurrenceModel(2, 2, ens, rank=rank),
+                  E.DensityMatrixGMEModel((2, 2), ens, rank=rank), E.DensityMatrixLinearEntropyModel((2, 2), ens, rank=rank)]
+        for m in models:
+            nm = type(m).__name__
+            hist = []
+            try:
+                for st in seq:
+                    rho = np.array([[complex(e[0], e[1]) for e in row] for row in st['obs']['rho']]) / st['obs']['den']
+                    C = rf(st['obs']['c'])
+                    closed = dict(EntanglementFormationModel=eof_of_c(C), ConcurrenceModel=C, DensityMatrixGMEModel=gme_of_c(C), DensityMatrixLinearEntropyModel=C * C / 2)[nm]
+                    m.set_density_matrix(rho)
+                    hist.append(dict(weights=st['cfg']['n'], closed=closed))
+                    npar = len(numqi.optimize.get_model_flat_parameter(m))
+                    for scale in (0.01, 1.0):
+                        numqi.optimize.set_model_flat_parameter(m, np.array([rng.gauss(0, scale) for _ in range(npar)]))
+                        with torch.no_grad():
+                            v = float(m())
+                        ctx.evaluations += 1
+                        if not np.isfinite(v) or v < closed - 1e-7:
+                            ctx.violation('C13:%s:reused-instance' % nm, '%s re-used over a sequence of states: loss %.9g after set_density_matrix #%d is below the closed form %.9g of the CURRENT state' % (nm, v, len(hist), closed),
+                                          dict(history=hist, rank=rank, ensemble=ens))
+                            raise StopIteration
+            except StopIteration:
+                pass
+            except Exception as ex:
+                ctx.violation('C13:exception:model-reuse', type(ex).__name__ + ': ' + str(ex)[:160], dict(model=nm, rank=rank))
+        ctx.case(('reuse', q, rank))
+
+
 def run_pure(ctx, states, rng, limit):
     import numqi
     E = numqi.entangle
@@ -99,6 +170,7 @@ def run_pure(ctx, states, rng, limit):
             v = dict(pure=float(E.get_concurrence_pure(psi.reshape(2, 2))), mixed=float(E.get_concurrence_2qubit(rho)),
                      eof_pure=float(E.get_eof_pure(psi.reshape(2, 2))), eof_mixed=float(E.get_eof_2qubit(rho)), gme=float(E.get_gme_2qubit(rho)))
             ctx.evaluations += 1
+            if not all(np.isfinite(x) for x in v.values()): ctx.violation('C13:two-qubit-measures:non-finite-pure', 'non-finite value on a pure state', dict(data, **{k: repr(x) for k, x in v.items()}))
             if abs(v['pure'] - C) > 1e-7: ctx.violation('C13:get_concurrence_pure:formula', 'differs from 2|ad-bc|/|psi|^2', dict(data, **v))
             if abs(v['mixed'] - C) > 1e-6: ctx.violation('C13:get_concurrence_2qubit:pure-state', 'does not reduce to the pure-state formula on a projector', dict(data, **v))
             if abs(v['eof_pure'] - eof_of_c(C)) > 1e-6 or abs(v['eof_mixed'] - eof_of_c(C)) > 1e-5: ctx.violation('C13:get_eof:pure-state', 'EOF of a pure state differs from h((1+sqrt(1-C^2))/2)', dict(data, **v))
@@ -118,6 +190,8 @@ def run(ctx):
     ctx.add_model('MC_TwoQubit', r)
     states = list(tlc.parse_dump(r))
     run_bell(ctx, states, rng, 12 if quick else 150)
+    run_lu_orbit(ctx, states, rng, 3000 if quick else 30000)
+    run_model_reuse(ctx, states, rng, 8 if quick else 80)
     run_pure(ctx, states, rng, 800 if quick else 10**9)
     ctx.traces += len(states)
     b = [s for s in states if s['cfg']['kind'] == 'bell'][40]
